@@ -49,6 +49,7 @@ def worker(args):
             _mod, spec = spec_of(pid)
             rep, hit = harness.reach_report(spec.get("anchors", []))
             ctx.extra["reach"] = rep
+            ctx.extra["reach_detail"] = {a: {"hit": v["hit"], "body": v["body"]} for a, v in harness.REACH_DETAIL.items()}
             ctx.extra["reach_functions"] = {k: int(v) for k, v in hit.items()}
             ctx.extra["fp_events"] = harness.fp_report()["events"]
             ctx.extra["fp_sites"] = harness.fp_report()["repo_sites_first40"]
